@@ -15,6 +15,7 @@ import re
 import subprocess
 import sys
 import time
+import threading as _threading
 
 ROOT = os.path.dirname(os.path.dirname(os.path.abspath(__file__)))
 COQ = os.path.join(ROOT, "coq")
@@ -413,3 +414,37 @@ def finish(ctx, pinfo, gate_hits, build_ok, build_log, trusted_base, rule):
         ctx.pid, ctx.tier, ctx.seed, len(pinfo["accepted"]), len(pinfo["theorems"]), ctx.evaluations,
         len(ctx.distinct), ctx.disagreements_checked, len(ctx.failures), len(ctx.broken) + len(proof_problems), time.time() - ctx.t0))
     return 1 if viol else 0
+
+
+
+class Hang(Exception):
+    """raised by call_watched when the watched call did not return in time"""
+
+
+HANGS = [0]          # number of watched calls that hung so far in this check (loops stop probing after a few)
+
+
+def call_watched(fn, timeout=6.0):
+    """fn() on a daemon thread: its value, or the exception it raised (re-raised here), or Hang after `timeout` seconds (the stuck
+    thread is then asked to exit with an asynchronous SystemExit so that a busy loop does not keep a core for the rest of the check)."""
+    box = []
+
+    def target():
+        try:
+            box.append(("ok", fn()))
+        except BaseException as e:      # noqa
+            box.append(("raised", e))
+    th = _threading.Thread(target=target, daemon=True, name="watched-call")
+    th.start()
+    th.join(timeout)
+    if not box:
+        try:
+            import ctypes
+            ctypes.pythonapi.PyThreadState_SetAsyncExc(ctypes.c_ulong(th.ident), ctypes.py_object(SystemExit))
+        except Exception:       # noqa
+            pass
+        HANGS[0] += 1
+        raise Hang("did not return within %.0f s" % timeout)
+    if box[0][0] == "raised":
+        raise box[0][1]
+    return box[0][1]
